@@ -205,6 +205,8 @@ class Interp:
         self.lineno = 0
         self.returned = None
         self.used_decisions = set()
+        self.versions = {}
+        self.final_name = {}           # attribute -> name of its last binding
 
     # ---------------- errors
     def err(self, msg, node=None):
@@ -213,10 +215,17 @@ class Interp:
 
     # ---------------- emit
     def emit(self, name, e):
+        """append a binding; names are made unique (SSA): a re-assignment of `x` is emitted as `x#2`, `x#3`, ...
+        and later reads see the newest version"""
         if isinstance(e, RowS):
             self.err('row value escapes its loop')
-        self.prog.append((name, e))
-        return var(name, e.kind)
+        k = self.versions.get(name, 0) + 1
+        self.versions[name] = k
+        uname = name if k == 1 else '%s#%d' % (name, k)
+        self.prog.append((uname, e))
+        if name.startswith('s.'):
+            self.final_name[name[2:]] = uname
+        return var(uname, e.kind)
 
     def bind_value(self, name, v, is_attr):
         """store v under name; E values are emitted as program bindings"""
